@@ -58,6 +58,42 @@ Definition check_block (prefix vals : list Z) (k : nat) (gs : Z) (w : int) (outs
   then zip_cases (fun s o => C14_assign_checkbZ s gs o) w inputs outs
   else map (fun _ => false) inputs.
 
+(* the same when the outputs cannot be packed (e.g. sizes that are not multiples of 64): aligned0; rank0; aligned1; rank1; ...
+   concatenated over the cases, 2 * (number of blocks) integers per case *)
+Fixpoint pairs_of (l : list Z) : list (Z * Z) :=
+  match l with
+  | a :: b :: r => (a, b) :: pairs_of r
+  | _ => []
+  end.
+
+Fixpoint take_cases {A} (f : list Z -> list (Z * Z) -> A) (inputs : list (list Z)) (outs : list Z) : list A :=
+  match inputs with
+  | [] => []
+  | s :: rest =>
+      let n := (2 * length s)%nat in
+      f s (pairs_of (firstn n outs)) :: take_cases f rest (skipn n outs)
+  end.
+
+Definition agree_block_flat (prefix vals : list Z) (k : nat) (gs : Z) (outs : list int) : list bool :=
+  let inputs := inputs_of prefix vals k in
+  if (length outs =? 2 * length (List.concat inputs))%nat
+  then take_cases (fun s o => agree_assign s gs (ObsAssigned o)) inputs (zs outs)
+  else map (fun _ => false) inputs.
+
+Definition check_block_flat (prefix vals : list Z) (k : nat) (gs : Z) (outs : list int) : list bool :=
+  let inputs := inputs_of prefix vals k in
+  if (length outs =? 2 * length (List.concat inputs))%nat
+  then take_cases (fun s o => C14_assign_checkbZ s gs o) inputs (zs outs)
+  else map (fun _ => false) inputs.
+
+Definition even_len {A} (l : list A) : bool := Nat.even (length l).
+
+Definition agree_flat (sizes : list int) (gs : Z) (fo : list int) : bool :=
+  even_len fo && agree_assign (zs sizes) gs (ObsAssigned (pairs_of (zs fo))).
+
+Definition check_flat (sizes : list int) (gs : Z) (fo : list int) : bool :=
+  even_len fo && C14_assign_checkbZ (zs sizes) gs (pairs_of (zs fo)).
+
 (* other cases: sizes and one packed entry per block *)
 Definition agree_packed (sizes : list int) (gs : Z) (outs : list int) : bool :=
   agree_assign (zs sizes) gs (ObsAssigned (map unpack (zs outs))).
@@ -66,14 +102,6 @@ Definition check_packed (sizes : list int) (gs : Z) (outs : list int) : bool :=
   C14_assign_checkbZ (zs sizes) gs (map unpack (zs outs)).
 
 (* views sent flat: off0; len0; off1; len1; ... *)
-Fixpoint pairs_of (l : list Z) : list (Z * Z) :=
-  match l with
-  | a :: b :: r => (a, b) :: pairs_of r
-  | _ => []
-  end.
-
-Definition even_len {A} (l : list A) : bool := Nat.even (length l).
-
 Definition agree_buffers_flat (numels : list int) (dsize gs me : Z) (fv : list int) (ototal ooff osize : Z) : bool :=
   even_len fv && agree_buffers (zs numels) dsize gs me (pairs_of (zs fv)) ototal (ooff, osize).
 
@@ -109,6 +137,10 @@ Example unpack_case_example : unpack_case 10%uint63 2 ((128 + 3) + 1024 * (512 +
 Proof. vm_compute. reflexivity. Qed.
 
 Example agree_block_rejects : agree_block [128] [64; 500] 1 2 10%uint63 [(128 + 1) + 1024 * (64 + 0); (128 + 1) + 1024 * (512 + 0)]%uint63 = [false; true].
+Proof. vm_compute. reflexivity. Qed.
+
+Example agree_block_flat_example :
+  agree_block_flat [128] [64; 500] 1 2 [128; 0; 64; 1; 128; 1; 512; 0]%uint63 = [true; true].
 Proof. vm_compute. reflexivity. Qed.
 
 Example take_state_example : take_state 9 [3; 1; 2; 1; 4; 7; 1; 0] = [(3, (1, [1; 4])); (7, (1, []))].
